@@ -368,6 +368,10 @@ impl Run {
                     return V::Str(s);
                 }
                 let mut s = self.plain_string(seed.str_sel, self.db_page());
+                if w > 255 && seed.class % 2 == 1 {
+                    // a value that uses most of an over-wide column
+                    s = "w".repeat(w - (seed.int_sel.unsigned_abs() as usize % 40));
+                }
                 if w == 0 && seed.class % 32 == 9 && !s.is_empty() {
                     // a medium-long cell (1025..4024 characters): its encoded
                     // form crosses the block sizes readers and writers use
@@ -397,7 +401,13 @@ impl Run {
             let ty = match s.ty % 4 {
                 0 => Ty::I16,
                 1 => Ty::I32,
-                _ => Ty::Str([0usize, 1, 3, 8, 64, 255][(s.width % 6) as usize]),
+                // (two widths beyond what the type word can hold: such a
+                // definition has to be refused, or else behave as declared)
+                _ => Ty::Str(match s.width % 32 {
+                    31 => 300,
+                    30 => 0x112c,
+                    w => [0usize, 1, 3, 8, 64, 255][(w % 6) as usize],
+                }),
             };
             let mut c = ColDef::new(COLUMN_NAMES[i], ty);
             c.key = i == 0 || s.key;
@@ -572,7 +582,21 @@ impl Run {
                 let _ = page;
                 self.trace.push(format!("create_table({tname}, {})", defs.iter().map(|c| format!("{}:{:?}{}{}", c.name, c.ty, if c.key { "*" } else { "" }, if c.nullable { "?" } else { "" })).collect::<Vec<_>>().join(",")));
                 let built: Vec<msi::Column> = defs.iter().map(|c| c.build()).collect();
-                self.pkg().create_table(tname.as_str(), built).map_err(|e| io_fail(p, "CreateTable", &self.trace_text(), e))?;
+                let over_wide = defs.iter().any(|c| matches!(c.ty, Ty::Str(w) if w > 255));
+                match self.pkg().create_table(tname.as_str(), built) {
+                    Ok(()) => {
+                        if over_wide {
+                            self.classes.push("over-wide-column-accepted");
+                        }
+                    }
+                    Err(_) if over_wide => {
+                        // refusing it is fine; nothing may have changed (C04's business)
+                        self.trace.pop();
+                        self.skipped += 1;
+                        return Ok(Outcome::Skipped);
+                    }
+                    Err(e) => return Err(io_fail(p, "CreateTable", &self.trace_text(), e)),
+                }
                 self.model.tables.insert(tname, MTable::new(defs));
                 self.dirty += 1;
                 Ok(Outcome::Applied)
